@@ -225,4 +225,31 @@ example : ∃ pre : List (Nat × Event), (∀ t tok md ml, (t, Event.advertise 3
     (run (init 1 []) pre).1.chain.length = 2 :=
   ⟨[(0, .selfAdvertise 5), (1, .advertise 2 6 7 100)], by simp, by decide⟩
 
+/--
+  **Up to the position the user opened.**  Split any history at a `request_attestation_advertisement(p, …)` call after
+  which `p` is not named again: in the final state the permission of `p` is the chain length right after that call, and
+  the first that-many tokens of the final chain are exactly the chain as it was then.  With
+  `tokens_only_up_to_permission`: whatever is requested later, `p` receives only tokens that existed when the user
+  opened the chain to `p`.
+-/
+theorem permission_is_position_opened (me : Key) (g : List (Key × Hash)) (pre post : List (Nat × Event)) (t : Nat)
+    (p : Key) (tok md : Hash) (ml : Nat)
+    (hpost : ∀ x ∈ post, ∀ tok' md' ml', x.2 ≠ Event.advertise p tok' md' ml') :
+    lookup p (run (init me g) (pre ++ (t, Event.advertise p tok md ml) :: post)).1.perms
+        = some (run (init me g) (pre ++ [(t, Event.advertise p tok md ml)])).1.chain.length ∧
+    (run (init me g) (pre ++ (t, Event.advertise p tok md ml) :: post)).1.chain.take
+        (run (init me g) (pre ++ [(t, Event.advertise p tok md ml)])).1.chain.length
+      = (run (init me g) (pre ++ [(t, Event.advertise p tok md ml)])).1.chain := by
+  have hsplit : pre ++ (t, Event.advertise p tok md ml) :: post = (pre ++ [(t, Event.advertise p tok md ml)]) ++ post := by
+    simp
+  rw [hsplit, run_append]
+  simp only
+  constructor
+  · rw [run_perm_stable p post _ hpost, run_append]
+    simp [run, step, lookup_insertDict]
+  · exact (List.prefix_iff_eq_take.mp (run_chain_prefix post _)).symm
+
+example : lookup 2 (run (init 1 []) [(0, .selfAdvertise 5), (1, .advertise 2 6 7 100), (2, .selfAdvertise 8),
+    (3, .advertise 3 9 10 100)]).1.perms = some 2 := by decide
+
 end Ipv8.C17
